@@ -407,8 +407,10 @@ class _StatementCompiler(StatementVisitor, _Compiler):
                 if format_desc.endswith("s"):
                     format_desc = format_desc[:-1]
                     value = f"value_to_string({value})"
-                format_string.append(f"{{:{format_desc}}}")
-                args.append(value)
+                # The specification may contain `{` or `}` (as the fill character), so it cannot be
+                # spliced into the format string; format the value separately.
+                format_string.append("{}")
+                args.append(f"format({value}, {format_desc!r})")
         format_string = "".join(format_string)
         args = ", ".join(args)
         return f"{format_string!r}.format({args})"
